@@ -44,94 +44,97 @@ def _opt_variant(cb, rv):
 
 
 def r5_accumulator(ctx, cb):
+    """Uniqueness scan behind the expansion of a forced 0xFF.  Written over *all* Option<token id> locals of the scan
+    (the accumulator itself, or the return slot of a spliced `fn unique_..() -> Option<TokenId>` helper), so that both
+    the flag form (`acc = None; break 'spec`) and the early-return form (`return None`) are recognised."""
     R = "C13-R5"
+    P = ctx.prog
+    OPT = "core::option::Option<u32>"
     pushes = set(cb.call_blocks(PS + "::try_push_byte_definitive"))
-    # decision switches: discr(<local>) of Option type whose Some arm reaches a push that the None arm cannot
-    accs = {}
-    for bi, e, targets, otherwise in cb.switch_edges():
-        if e[0] != "discr":
-            continue
-        inner = e[1]
-        if inner[0] != "local" and not (inner[0] == "place" and len(inner[1]) == 1):
-            continue
-        loc = inner[1] if inner[0] == "local" else inner[1][0]
-        if not isinstance(loc, int):
-            continue
-        ty = cb.locals[loc]["ty"] if loc < len(cb.locals) else ""
-        if not ty.startswith("core::option::Option<"):
-            continue
-        nd = [d for d in cb.defs().get(loc, []) if d[2] == "assign"]
-        if len(nd) < 2:
-            continue
-        accs[loc] = (bi, nd)
-    ctx.check(len(accs) == 1, R, "force_bytes:one-uniqueness-accumulator",
-              "the marker expansion is decided by one Option accumulator local assigned on several paths",
-              "expected exactly one multi-assigned Option local deciding the marker expansion, found %d" % len(accs), site=cb.where())
-    if len(accs) != 1:
-        return
-    loc, (dec, nd) = next(iter(accs.items()))
-    kinds = []
-    for (bi, si, _, rv) in nd:
-        v, ops = _opt_variant(cb, rv)
-        kinds.append((bi, v, ops))
-    unknown = [k for k in kinds if k[1] is None]
-    ctx.check(not unknown, R, "accumulator:assignments-are-literal-variants",
-              "every assignment to the accumulator is a literal None/Some", "accumulator assigned a non-literal value at %s"
-              % [cb.where(k[0]) for k in unknown], site=cb.where(dec))
-    nones = [k[0] for k in kinds if k[1] == "None"]
-    somes = [k for k in kinds if k[1] == "Some"]
+    opt_locals = {l for l in range(len(cb.locals)) if cb.local_ty(l) == OPT}
+    # slots: user variables and return slots of spliced helpers (not the temporaries that carry an aggregate or a
+    # comparison operand)
+    slots = {l for l in opt_locals if cb.locals[l].get("n")}
+    for bi, si, st in cb.statements():
+        if "inl" in st and st["r"].get("rv") == "use":
+            src = st["r"]["o"].get("m") or st["r"]["o"].get("c")
+            if src and len(src) == 1 and src[0] in opt_locals:
+                slots.add(src[0])
+    kinds = []  # (block, variant)
+    for l in sorted(slots):
+        for (bi, si, kind, rv) in cb.defs().get(l, []):
+            if kind != "assign":
+                continue
+            v, ops = _opt_variant(cb, rv)
+            if v is not None:
+                kinds.append((bi, v))
+    somes = sorted({k[0] for k in kinds if k[1] == "Some"})
+    nones = sorted({k[0] for k in kinds if k[1] == "None"})
     idom = cb.dominators()
-    init = [n for n in nones if all(cb.dominates(n, k[0], idom) for k in kinds)]
-    ctx.check(len(init) == 1 and bool(somes), R, "accumulator:initialised-none",
-              "the accumulator is initialised to None before the scan and set to Some inside it",
-              "no dominating None initialisation (or no Some assignment) of the uniqueness accumulator", site=cb.where(dec))
-    if len(init) != 1 or not somes:
+    init = [n for n in nones if somes and all(cb.dominates(n, sb, idom) for sb in somes)]
+    ctx.check(len(init) >= 1 and bool(somes), R, "accumulator:initialised-none",
+              "the scan starts from None and stores Some(token id) inside it",
+              "no dominating None initialisation (or no Some assignment) of the unique-token accumulator in force_bytes", site=cb.where())
+    if not init or not somes:
         return
-    init = init[0]
-    conflicts = [n for n in nones if n != init]
-    ctx.floor(R, "conflict resets of the uniqueness accumulator", len(conflicts), 1)
-    some_blocks = {k[0] for k in somes}
-    for n in conflicts:
-        reach = cb.reachable(n, cut_blocks=[init])
-        hit = sorted(reach & some_blocks)
-        ctx.check(not hit, R, "accumulator:conflict-is-final#%d" % conflicts.index(n),
-                  "after a conflict reset no Some assignment is reachable before re-initialisation",
-                  "after the accumulator is reset to None on a conflict the scan continues and can assign Some again (%s): "
-                  "one of several possible special tokens is then forced" % [cb.where(h) for h in hit], site=cb.where(n))
-    # Some(t) only if the accumulator is None or equals Some(t), and only for single-token ranges
-    def is_none_of_acc(x):
-        return x[0] == "call" and x[1].endswith("Option::<T>::is_none") and L.root_local(cb, x[2][0]) == loc
-    def eq_acc(x):
-        return (x[0] == "call" and x[1].endswith("PartialEq>::eq") and
-                any(L.root_local(cb, a) == loc for a in x[2]))
-    def single_range(x):
-        if not (x[0] == "call" and x[1].endswith("::eq") and len(x[2]) == 2):
-            return False
+    conflicts = [n for n in nones if n not in init]
+    ctx.floor(R, "conflict results (None) of the uniqueness scan", len(conflicts), 1)
+    for k, n in enumerate(conflicts):
+        reach = cb.reachable(n, cut_blocks=init)
+        hit = sorted(reach & set(somes))
+        ctx.check(not hit, R, "accumulator:conflict-is-final#%d" % k,
+                  "after a conflict (None result) no Some assignment is reachable before re-initialisation",
+                  "after the scan has produced None on a conflict it continues and can assign Some again (%s): one of several "
+                  "possible special tokens is then forced" % [cb.where(h) for h in hit], site=cb.where(n))
+    start = init[0]
+
+    def on_opt(x):
+        x = L.strip_views(x)
+        if x[0] == "ref" and len(x[1]) == 1:
+            return x[1][0] in opt_locals
+        return (x[0] == "local" and x[1] in opt_locals) or (x[0] == "place" and len(x[1]) == 1 and x[1][0] in opt_locals)
+    is_none = lambda x: x[0] == "call" and x[1].endswith("Option::<T>::is_none") and on_opt(x[2][0])
+    is_some = lambda x: x[0] == "call" and x[1].endswith("Option::<T>::is_some") and on_opt(x[2][0])
+    eq_acc = lambda x: x[0] == "call" and x[1].endswith("::eq") and any(on_opt(a) for a in x[2])
+    ne_acc = lambda x: x[0] == "call" and x[1].endswith("::ne") and any(on_opt(a) for a in x[2])
+
+    def range_ends(x):
         names = set()
         for a in x[2]:
             a = L.strip_wrappers(a)
-            while a[0] in ("ref", "deref") and isinstance(a[1], tuple):
-                a = a[1]
+            if a[0] == "ref":
+                v = L.value_of(cb, a)
+                a = v if v else a
             if a[0] == "call":
                 names.add(a[1].rsplit("::", 1)[1])
-            elif a[0] == "ref":
-                v = L.value_of(cb, a)
-                if v and v[0] == "call":
-                    names.add(v[1].rsplit("::", 1)[1])
         return names == {"start", "end"}
-    g1 = L.guard_edges_multi(cb, [(is_none_of_acc, True), (eq_acc, True)])
-    g2 = L.guard_edges(cb, single_range, True)
-    for k in somes:
-        bi = k[0]
-        ctx.check(bool(g1) and not L.dominated_by_cut(cb, [bi], g1, start=init), R, "accumulator:some-only-if-none-or-equal",
+    single = lambda x: x[0] == "call" and x[1].endswith("::eq") and len(x[2]) == 2 and range_ends(x)
+    multi = lambda x: x[0] == "call" and x[1].endswith("::ne") and len(x[2]) == 2 and range_ends(x)
+    g1 = L.guard_edges_multi(cb, [(is_none, True), (is_some, False), (eq_acc, True), (ne_acc, False)])
+    g2 = L.guard_edges_multi(cb, [(single, True), (multi, False)])
+    for k, bi in enumerate(somes):
+        ctx.check(bool(g1) and not L.dominated_by_cut(cb, [bi], g1, start=start), R, "accumulator:some-only-if-none-or-equal#%d" % k,
                   "Some(t) is stored only when the accumulator is None or already Some(t)",
                   "the accumulator is overwritten with Some(t) without testing that it was None or the same id", site=cb.where(bi))
-        ctx.check(bool(g2) and not L.dominated_by_cut(cb, [bi], g2, start=init), R, "accumulator:some-only-for-single-token-range",
+        ctx.check(bool(g2) and not L.dominated_by_cut(cb, [bi], g2, start=start), R, "accumulator:some-only-for-single-token-range#%d" % k,
                   "Some(t) is stored only for ranges with start == end",
                   "a multi-token range can set the unique token id", site=cb.where(bi))
-    # the expansion pushes happen only on the Some arm of the decision
-    t = cb.blocks[dec]["term"]
-    some_t = [tb for v, tb in t["targets"] if int(v) == 1]
+    # the expansion pushes happen only on the Some arm of a switch on the scan's Option<token id> result
+    cut = []
+    for bi, e, targets, otherwise in cb.switch_edges():
+        if e[0] != "discr":
+            continue
+        x = e[1]
+        ty = None
+        if x[0] == "local":
+            ty = cb.local_ty(x[1])
+        elif x[0] == "place" and len(x[1]) == 1:
+            ty = cb.local_ty(x[1][0])
+        elif x[0] == "call":
+            hb = P.bodies.get(x[1]) or P.hidden.get(x[1])
+            ty = hb.local_ty(0) if hb is not None else None
+        if ty == OPT:
+            cut += [(bi, tb) for v, tb in targets if int(v) == 1]
     special = []
     for bi in pushes:
         e = cb.expr(cb.blocks[bi]["term"]["args"][1])
@@ -143,10 +146,9 @@ def r5_accumulator(ctx, cb):
         if not plain:
             special.append(bi)
     if ctx.floor(R, "marker-expansion push sites", len(special), 1):
-        cut = [(dec, tb) for tb in some_t]
-        ctx.check(bool(cut) and not L.dominated_by_cut(cb, special, cut, start=init), R, "expansion-only-if-unique",
-                  "the \\xFF[id] expansion is pushed only on the Some arm of the accumulator",
-                  "the marker expansion can be pushed although no unique token id was determined", site=cb.where(dec))
+        ctx.check(bool(cut) and not L.dominated_by_cut(cb, special, cut, start=start), R, "expansion-only-if-unique",
+                  "the \\xFF[id] expansion is pushed only on the Some arm of the scan result",
+                  "the marker expansion can be pushed although no unique token id was determined", site=cb.where())
 
 
 def run(ctx):
@@ -266,11 +268,15 @@ def run(ctx):
             def pred(e, tb=tb):
                 return e[0] == "call" and len(e) > 3 and e[3] == tb
             te = L.guard_edges(sc, pred, True)
+            tf = L.guard_edges(sc, pred, False)
             ok = bool(te)
-            for (_, tgt) in te:
-                # from the success target, every path to return or to another probe passes a pop
-                bad = L.must_pass(sc, [tgt], pops, targets=set(sc.return_blocks()) | (set(tries) - {tb}))
-                if bad and tgt not in pops:
+            # from the probe, on every path on which its result is true (the false edges of every test of that result are
+            # cut — the result may be kept in a variable and tested more than once), a pop comes before the next probe or
+            # the return
+            nxt = sc.blocks[tb]["term"].get("to")
+            if ok and nxt is not None and nxt not in pops:
+                bad = L.must_pass(sc, [nxt], pops, targets=set(sc.return_blocks()) | (set(tries) - {tb}), cut_edges=tf)
+                if bad:
                     ok = False
             ctx.check(ok, "C13-R2", "probe-undone@%s" % sc.where(tb).rsplit(":", 1)[1],
                       "a successful probe is popped before the next probe / return",
